@@ -85,6 +85,9 @@ class C02(common.ModelProperty):
     def make_config(self, rng):
         cfg = {}
         cfg["steps"] = gen.geometric_steps(rng, 3, 60, 16)
+        if common.deep_tier() and rng.random() < 0.25:
+            cfg["deep_bounds"] = True
+            cfg["steps"] = gen.geometric_steps(rng, 30, 200, 70)
         cfg["nv"] = rng.randint(1, 6)
         cfg["nu"] = rng.randint(1, 3)
         cfg["max_vertices"] = cfg["nv"] + cfg["nu"] + rng.choice([0, 1, 3])
